@@ -647,3 +647,44 @@ func TestWitnessHandOffLive(t *testing.T) {
 		}
 	}
 }
+
+// TestWitnessShareReconnect: a connectable observable that is connected again while its previous connection is being
+// torn down (from the source's own teardown here; from another goroutine in general): the end of the previous
+// connection is handled once, before the new connection starts - subscribers that arrive afterwards join the running
+// connection. Both ways a connection ends: unsubscription and completion of the source.
+func TestWitnessShareReconnect(t *testing.T) {
+	for _, how := range []string{"unsubscribe", "complete"} {
+		var dests []Observer[int]
+		var c ConnectableObservable[int]
+		reconnect := true
+		c = NewConnectableObservable(func(d Observer[int]) Teardown {
+			dests = append(dests, d)
+			return func() {
+				if reconnect {
+					reconnect = false
+					c.Connect()
+				}
+			}
+		})
+		conn := c.Connect()
+		if how == "unsubscribe" {
+			conn.Unsubscribe()
+		} else {
+			dests[0].Complete()
+		}
+		if len(dests) != 2 {
+			fmt.Printf("REPLAY-FAIL connectable (%s): Connect from the teardown of the previous connection made %d connection(s) in all, want 2\n", how, len(dests))
+			t.Errorf("WITNESS connectable reconnect %s: %d connections", how, len(dests))
+			continue
+		}
+		var got []int
+		sub := c.Subscribe(OnNext(func(v int) { got = append(got, v) }))
+		dests[1].Next(42)
+		dests[1].Next(43)
+		sub.Unsubscribe()
+		if fmt.Sprint(got) != "[42 43]" {
+			fmt.Printf("REPLAY-FAIL connectable (%s): connected again while the previous connection was torn down; a subscriber that joins afterwards receives %v from the running connection, want [42 43]\n", how, got)
+			t.Errorf("WITNESS connectable reconnect %s: got %v", how, got)
+		}
+	}
+}
